@@ -84,7 +84,10 @@ Example converted_path_refused :
   exists p, sanitise false d name = Some p /\
             resanitise false d p (bs "/s/a/dest/../../evil?") = None /\
             withinb d (bs "/s/a/dest/../../evil?") = false.
-Proof. eexists. vm_compute. repeat split; reflexivity. Qed.
+Proof.
+  exists [47; 115; 47; 97; 47; 100; 101; 115; 116; 47; 46; 27; 40; 66; 46; 47; 46; 27; 40; 66; 46; 47; 101; 118; 105; 108; 255].
+  vm_compute. repeat split; reflexivity.
+Qed.
 
 (* why the element test (cv=true, C07 fix) must sanitise the nested destination: "...zip" has no ".." element, its
    stem is "..", and Join(Dir p, Stem p) is the parent of the destination; the sanitised form refuses it *)
@@ -93,7 +96,7 @@ Example element_test_needs_nested_guard :
   exists p, sanitise true d (bs "...zip") = Some p /\
             withinb d (clean (join2 (dir p) (stem p))) = false /\
             nested_dest true p = None /\ sanitise false d (bs "...zip") = None.
-Proof. eexists. vm_compute. repeat split; reflexivity. Qed.
+Proof. exists (bs "/s/dest/...zip"). vm_compute. repeat split; reflexivity. Qed.
 
 (* a complete run: directory, file, nested archive with a directory; all 13 operations within the destination *)
 Example unzip_run :
